@@ -130,6 +130,8 @@ def coq_spec_tie(case, ref, res, counters):
 def run(ctx, res):
     with build.Lock():
         exe = build.harness()
+    from . import e2e
+    e2e.capstone_obligations(res, 'C17_')      # from the grammar TEXT: the script's functions terminate (Props/Capstone.v)
     witness_tables_tie(exe, res)
     counters = {}
     rng = ctx['rng']
